@@ -891,3 +891,37 @@ package ircserver
 //@   loopinv role: !s.Server
 //@ func IRCServer.cmdUser
 //@   requires role: !s.Server
+
+// ---------------------------------------------------------------------------
+// C03: state serialization. One relation per serialized type, established by
+// Marshal (at the call of proto.Marshal) and re-established by Unmarshal on
+// the decoded snapshot; the legacy fall-backs of the reader (unset logged_in,
+// created and last_non_ping) are part of the relation.
+
+//@ pred tsTime(t *pb.Timestamp) = ite(t == nil || t.IsZero, zerotime(), time.Unix(0, t.UnixNano))
+//@ func timestampToTime
+//@   ensures result == tsTime(t)
+//@   modifies
+//@ func timeToTimestamp
+//@   ensures result != nil && fresh(result) && result.UnixNano == t.UnixNano() && (result.IsZero <==> t.IsZero())
+//@   modifies
+
+//@ pred sessRepr(p *pb.Snapshot_Session, s *Session) = p.Id.Id == s.Id.Id && p.Id.Reply == s.Id.Reply && p.Auth == s.auth && (s.loggedIn <==> (p.LoggedIn == 1 || (p.LoggedIn == 0 && p.Nick != "" && p.Username != ""))) && p.Nick == s.Nick && p.Username == s.Username && p.Realname == s.Realname && s.LastActivity == tsTime(p.LastActivity) && s.LastNonPing == ite(tsTime(p.LastNonPing).IsZero(), tsTime(p.LastActivity), tsTime(p.LastNonPing)) && s.LastSolvedCaptcha == tsTime(p.LastSolvedCaptcha) && p.Operator == s.Operator && p.AwayMsg == s.AwayMsg && s.Created == ite(p.Created > 0, p.Created, p.Id.Id) && p.ThrottlingExponent == s.throttlingExponent && p.Svid == s.svid && p.Pass == s.Pass && p.Server == s.Server && p.LastClientMessageId == s.lastClientMessageId && p.IrcPrefix.Name == s.ircPrefix.Name && p.IrcPrefix.User == s.ircPrefix.User && p.IrcPrefix.Host == s.ircPrefix.Host && p.RemoteAddr == s.RemoteAddr
+
+//@ pred snapId(p *pb.Snapshot_Session) = mk("robust.Id", p.Id.Id, p.Id.Reply)
+
+// What Marshal guarantees about the shape of a snapshot (asserted there, assumed after decoding).
+//@ pred wfSnapSessions(S *pb.Snapshot) = (forall k int :: 0 <= k && k < len(S.Sessions) ==> S.Sessions[k] != nil && allocated(S.Sessions[k]) && S.Sessions[k].Id != nil && S.Sessions[k].IrcPrefix != nil && (forall j int :: 0 <= j && j < len(S.Sessions[k].Modes) ==> len(S.Sessions[k].Modes[j]) > 0 && S.Sessions[k].Modes[j][0] < 122)) && (forall a int, b int {S.Sessions[a], S.Sessions[b]} :: 0 <= a && a < b && b < len(S.Sessions) ==> snapId(S.Sessions[a]) != snapId(S.Sessions[b]))
+
+//@ func IRCServer.Unmarshal
+//@   requires fresh-server: i != nil && i.sessions != nil && i.nicks != nil && i.channels != nil && i.svsholds != nil && (forall x robust.Id :: !(x in i.sessions))
+//@   assume@after proto.Unmarshal#0 : written-by-marshal: wfSnapSessions(addrof(snapshot))
+//@   loopinv shape: i.sessions != nil && i.nicks != nil && i.channels != nil && i.svsholds != nil && wfSnapSessions(addrof(snapshot))
+// proof steps: the session just built represents its wire form; its id is new
+//@   assert@mapupdate i.sessions#0 : built: sessRepr(s, newSession)
+//@   assert@mapupdate i.sessions#0 : newid: forall k int :: 0 <= k && k <= rangeindex ==> snapId(snapshot.Sessions[k]) != snapId(s)
+//@   assert@mapupdate i.nicks#0 : stored: snapId(s) in i.sessions && i.sessions[snapId(s)] == newSession && sessRepr(s, newSession)
+//@   assert@mapupdate i.nicks#0 : kept: forall k int :: 0 <= k && k <= rangeindex ==> snapId(snapshot.Sessions[k]) in i.sessions && i.sessions[snapId(snapshot.Sessions[k])] != nil && allocated(i.sessions[snapId(snapshot.Sessions[k])]) && sessRepr(snapshot.Sessions[k], i.sessions[snapId(snapshot.Sessions[k])])
+//@   loop range snapshot.Sessions
+//@     invariant forall k int :: 0 <= k && k <= rangeindex ==> snapId(snapshot.Sessions[k]) in i.sessions && i.sessions[snapId(snapshot.Sessions[k])] != nil && allocated(i.sessions[snapId(snapshot.Sessions[k])]) && sessRepr(snapshot.Sessions[k], i.sessions[snapId(snapshot.Sessions[k])])
+//@     invariant forall x robust.Id :: x in i.sessions ==> (exists k int :: 0 <= k && k <= rangeindex && snapId(snapshot.Sessions[k]) == x)
